@@ -86,14 +86,21 @@ ChannelsFor(target, s) ==
        \cup (IF s \in McSettings /\ target = "plss" THEN {"mc"} ELSE {})
 
 VARIABLES phase,       \* "start" -> "created" -> ("assigned") -> "parsed"   | "codec"
-          scn,         \* [target, s, v, ch, ch2, v2]
+          scn,         \* [target, s, v, ch, ch2, s2, v2]   (s2 = s except in the related-settings scenarios)
           attr,        \* the object's attribute for setting s after each step
+          attr2,       \* ... and for the related setting s2 (related-settings scenarios only)
           used,        \* the value that governed the parse
+          used2,       \* the value of the related setting s2 that took part in the parse
           cfg          \* codec: the partial assignment under test
-vars == <<phase, scn, attr, used, cfg>>
+vars == <<phase, scn, attr, attr2, used, used2, cfg>>
 
-NoScn == [target |-> "plss", s |-> "clean_qq", v |-> Unset, ch |-> "none", ch2 |-> "none", v2 |-> Unset, again |-> FALSE]
-Init == phase = "start" /\ scn = NoScn /\ attr = Unset /\ used = Unset /\ cfg = Empty
+NoScn == [target |-> "plss", s |-> "clean_qq", v |-> Unset, ch |-> "none", ch2 |-> "none", s2 |-> "clean_qq", v2 |-> Unset,
+          again |-> FALSE]
+Init == phase = "start" /\ scn = NoScn /\ attr = Unset /\ attr2 = Unset /\ used = Unset /\ used2 = Unset /\ cfg = Empty
+
+\* the exact depth and the depth bounds speak about the same thing: a keyword for one of them is the caller's whole
+\* statement about depth for that call, so the attribute of the other is not consulted (tract.py / plssdesc.py parse())
+Related(s, s2) == (s = "qq_depth" /\ s2 \in {"qq_depth_min", "qq_depth_max"}) \/ (s2 = "qq_depth" /\ s \in {"qq_depth_min", "qq_depth_max"})
 
 \* codec branch: choose up to MaxSet settings and values
 ChooseCodec == /\ phase = "start"
@@ -101,47 +108,59 @@ ChooseCodec == /\ phase = "start"
                     \/ cfg' = [Empty EXCEPT ![s1] = v1]
                     \/ MaxSet >= 2 /\ \E s2 \in Settings \ {s1} : \E v2 \in ValuesOf(s2) :
                           cfg' = [Empty EXCEPT ![s1] = v1, ![s2] = v2]
-               /\ phase' = "codec" /\ UNCHANGED <<scn, attr, used>>
+               /\ phase' = "codec" /\ UNCHANGED <<scn, attr, attr2, used, used2>>
 
 \* precedence branch
 ChooseScenario ==
   /\ phase = "start"
   /\ \E t \in Targets : \E s \in Settings : \E ch \in ChannelsFor(t, s) : \E v \in ValuesOf(s) :
        \E ag \in (IF ch = "parse_kw" THEN BOOLEAN ELSE {FALSE}) :     \* again: a second, keyword-less parse follows
-       \/ scn' = [target |-> t, s |-> s, v |-> v, ch |-> ch, ch2 |-> "none", v2 |-> Unset, again |-> ag]
+       \/ scn' = [target |-> t, s |-> s, v |-> v, ch |-> ch, ch2 |-> "none", s2 |-> s, v2 |-> Unset, again |-> ag]
        \/ \E ch2 \in ChannelsFor(t, s) : \E v2 \in ValuesOf(s) \ {v} :
             /\ Strength(ch2) < Strength(ch)
-            /\ scn' = [target |-> t, s |-> s, v |-> v, ch |-> ch, ch2 |-> ch2, v2 |-> v2, again |-> ag]
-  /\ phase' = "chosen" /\ UNCHANGED <<attr, used, cfg>>
-ValIn(ch) == IF scn.ch = ch THEN scn.v ELSE IF scn.ch2 = ch THEN scn.v2 ELSE Unset
+            /\ scn' = [target |-> t, s |-> s, v |-> v, ch |-> ch, ch2 |-> ch2, s2 |-> s, v2 |-> v2, again |-> ag]
+       \* related settings: a keyword for s, the related setting s2 configured on the object
+       \/ /\ ch = "parse_kw" /\ ~ag
+          /\ \E s2 \in Settings : \E ch2 \in {"init_config", "assign_config"} : \E v2 \in ValuesOf(s2) :
+               /\ Related(s, s2) /\ ch2 \in ChannelsFor(t, s2)
+               /\ scn' = [target |-> t, s |-> s, v |-> v, ch |-> ch, ch2 |-> ch2, s2 |-> s2, v2 |-> v2, again |-> ag]
+  /\ phase' = "chosen" /\ UNCHANGED <<attr, attr2, used, used2, cfg>>
+Cross == scn.s2 # scn.s
+ValIn(ch) == IF scn.ch = ch THEN scn.v ELSE IF scn.ch2 = ch /\ ~Cross THEN scn.v2 ELSE Unset
+ValIn2(ch) == IF scn.ch2 = ch /\ Cross THEN scn.v2 ELSE Unset
 \* __init__: config string applied first, then the init keyword
 Create == /\ phase = "chosen"
           /\ attr' = (IF ValIn("init_kw") # Unset THEN ValIn("init_kw") ELSE ValIn("init_config"))
-          /\ phase' = "created" /\ UNCHANGED <<scn, used, cfg>>
+          /\ attr2' = ValIn2("init_config")
+          /\ phase' = "created" /\ UNCHANGED <<scn, used, used2, cfg>>
 \* .config = text: only settings named in the text are overwritten
 Assign == /\ phase = "created"
           /\ attr' = (IF ValIn("assign_config") # Unset /\ Fault # "assign_ignored" THEN ValIn("assign_config") ELSE attr)
-          /\ phase' = "assigned" /\ UNCHANGED <<scn, used, cfg>>
+          /\ attr2' = (IF ValIn2("assign_config") # Unset THEN ValIn2("assign_config") ELSE attr2)
+          /\ phase' = "assigned" /\ UNCHANGED <<scn, used, used2, cfg>>
 \* parse(): keyword, else attribute, else MasterConfig (directions only), else the built-in default
 Parse == /\ phase = "assigned"
          /\ used' = (IF ValIn("parse_kw") # Unset /\ Fault # "kw_loses" THEN ValIn("parse_kw")
                      ELSE IF attr # Unset THEN attr
                      ELSE IF ValIn("mc") # Unset THEN ValIn("mc") ELSE Unset)
-         /\ phase' = "parsed" /\ UNCHANGED <<scn, attr, cfg>>
+         /\ used2' = (IF Cross /\ ValIn("parse_kw") # Unset /\ Fault # "related_attr_wins" THEN Unset ELSE attr2)
+         /\ phase' = "parsed" /\ UNCHANGED <<scn, attr, attr2, cfg>>
 \* a keyword of one parse() call does not outlive that call
 ParseAgain == /\ phase = "parsed" /\ scn.again
               /\ used' = (IF Fault = "kw_sticks" THEN used ELSE IF attr # Unset THEN attr ELSE ValIn("mc"))
-              /\ phase' = "parsed2" /\ UNCHANGED <<scn, attr, cfg>>
+              /\ phase' = "parsed2" /\ UNCHANGED <<scn, attr, attr2, used2, cfg>>
 Next == ChooseCodec \/ ChooseScenario \/ Create \/ Assign \/ Parse \/ ParseAgain
 Spec == Init /\ [][Next]_vars
 
 RoundTrip == phase = "codec" => Decode(Encode(cfg)) = cfg /\ \A k \in 1..Len(Encode(cfg)) : Known(Encode(cfg)[k])
 StrongestWins == phase = "parsed" => used = scn.v
+\* ... and a keyword silences the configured related setting
+KeywordSilencesRelated == phase = "parsed" /\ Cross => used2 = Unset
 KeywordDoesNotStick == phase = "parsed2" => used = (IF scn.ch2 = "none" THEN Unset ELSE scn.v2)
 Final == (phase = "parsed" /\ ~scn.again) \/ phase = "parsed2"
 \* the reference scenario: the governing value given through the config string at creation
-Reference == IF used = Unset THEN [scn EXCEPT !.ch = "none", !.ch2 = "none", !.v2 = Unset, !.v = Unset, !.again = FALSE]
-             ELSE [scn EXCEPT !.ch = "init_config", !.ch2 = "none", !.v2 = Unset, !.v = used, !.again = FALSE]
+Reference == IF used = Unset THEN [scn EXCEPT !.ch = "none", !.ch2 = "none", !.s2 = scn.s, !.v2 = Unset, !.v = Unset, !.again = FALSE]
+             ELSE [scn EXCEPT !.ch = "init_config", !.ch2 = "none", !.s2 = scn.s, !.v2 = Unset, !.v = used, !.again = FALSE]
 
 EmitCodec == (EmitCases /\ phase = "codec") => PrintT(<<"CASE", ToJson([kind |-> "codec", cfg |-> cfg, tokens |-> Encode(cfg)])>>)
 EmitScn == (EmitCases /\ Final) => PrintT(<<"CASE", ToJson([kind |-> "scenario", scn |-> scn, used |-> used, ref |-> Reference])>>)
